@@ -620,7 +620,8 @@ def main(tier):
         check_mirror(rep, c)
     check_rollback(rep)
     check_trailer_consume(rep)
-    import acct, c19, llir
+    import acct, c19, llir, c17
+    c17.check_dict_tail(rep, llir.library('default'))
     acct.check(rep, 'i', 50, c19.field_offsets('struct isal_zstream', ['next_in', 'avail_in', 'total_in', 'next_out', 'avail_out', 'total_out']),
                c19.field_offsets('struct inflate_state', ['next_in', 'avail_in', 'next_out', 'avail_out', 'total_out']), llir.library('default'))
     return rep.finish()
